@@ -512,10 +512,14 @@ where
 
     match f(state) {
         Ok(state) => {
+            #[cfg(feature = "verif-hooks")]
+            verif::record(&state);
             let len = state.queue.len();
             Ok(new(Rc::new(state.queue), input, None, 0, len))
         }
         Err(mut state) => {
+            #[cfg(feature = "verif-hooks")]
+            verif::record(&state);
             let variant = if state.reached_call_limit() {
                 ErrorVariant::CustomError {
                     message: "call limit reached".to_owned(),
@@ -1779,6 +1783,90 @@ impl<'i, R: RuleType> ParserState<'i, R> {
     pub(crate) fn restore(mut self: Box<Self>) -> Box<Self> {
         self.stack.restore();
         self
+    }
+}
+
+/// Verification hooks: read-only observers of the parser state (feature `verif-hooks`).
+#[cfg(feature = "verif-hooks")]
+pub mod verif {
+    use super::*;
+
+    std::thread_local! {
+        static LAST_CALLS: core::cell::Cell<Option<usize>> = const { core::cell::Cell::new(None) };
+    }
+
+    /// Number of calls the call tracker had counted when the most recent `state()` on this
+    /// thread returned (`None` if no limit was set, since calls are then not counted).
+    pub fn last_call_count() -> Option<usize> {
+        LAST_CALLS.with(|c| c.get())
+    }
+
+    pub(super) fn record<R: RuleType>(state: &ParserState<'_, R>) {
+        LAST_CALLS.with(|c| c.set(state.call_tracker.current_call_limit.map(|(n, _)| n)));
+    }
+
+    /// One queued token: `(is_start, input_pos, rule, tag, partner_index)`.
+    pub type QueueEntry<R> = (bool, usize, Option<R>, Option<String>, usize);
+
+    /// A copy of everything a `ParserState` holds.
+    #[derive(Clone, Debug, PartialEq, Eq)]
+    pub struct Snapshot<R> {
+        /// current byte position
+        pub pos: usize,
+        /// token queue
+        pub queue: Vec<QueueEntry<R>>,
+        /// stack contents, bottom first
+        pub stack: Vec<String>,
+        /// lookahead status
+        pub lookahead: Lookahead,
+        /// atomicity status
+        pub atomicity: Atomicity,
+        /// furthest attempt position
+        pub attempt_pos: usize,
+        /// positive attempts
+        pub pos_attempts: Vec<R>,
+        /// negative attempts
+        pub neg_attempts: Vec<R>,
+    }
+
+    impl<'i, R: RuleType> ParserState<'i, R> {
+        /// Copies the complete observable and internal state.
+        pub fn verif_snapshot(&self) -> Snapshot<R> {
+            Snapshot {
+                pos: self.position.pos(),
+                queue: self
+                    .queue
+                    .iter()
+                    .map(|t| match *t {
+                        QueueableToken::Start {
+                            end_token_index,
+                            input_pos,
+                        } => (true, input_pos, None, None, end_token_index),
+                        QueueableToken::End {
+                            start_token_index,
+                            rule,
+                            tag,
+                            input_pos,
+                        } => (
+                            false,
+                            input_pos,
+                            Some(rule),
+                            tag.map(|t| t.to_owned()),
+                            start_token_index,
+                        ),
+                    })
+                    .collect(),
+                stack: self.stack[0..self.stack.len()]
+                    .iter()
+                    .map(|s| s.as_borrowed_or_rc().as_str().to_owned())
+                    .collect(),
+                lookahead: self.lookahead,
+                atomicity: self.atomicity,
+                attempt_pos: self.attempt_pos,
+                pos_attempts: self.pos_attempts.clone(),
+                neg_attempts: self.neg_attempts.clone(),
+            }
+        }
     }
 }
 
